@@ -106,6 +106,10 @@ def _pid(o):
         cls = o.cls or Cell
         if o.fmt == 'tuple':
             return (o.oid, cls)
+        if o.fmt == 'tuple-str':        # legacy record written by Python 2: oid is a (now unicode) str
+            return (o.oid.decode('latin-1'), cls)
+        if o.fmt == 'oid-str':
+            return o.oid.decode('latin-1')
         if o.fmt == 'oid':
             return o.oid
         if o.fmt == 'w':
